@@ -1,6 +1,7 @@
 package checks
 
 import (
+	"time"
 	"fmt"
 	"sort"
 
@@ -33,6 +34,9 @@ type twCfg struct {
 	Base  int64 `json:"epoch_base_ms,omitempty"`
 	Div   int64 `json:"alphabet_divisor,omitempty"`
 	Float bool  `json:"float64_timestamps,omitempty"`
+	// TSType: the Go type of the timestamp column: "" int64 (or float64 with Float), "int", "uint64", "time" (time.Time),
+	// "time-local" (time.Time in a zone east of UTC), "string" (decimal text)
+	TSType string `json:"timestamp_type,omitempty"`
 }
 
 func (c twCfg) at(t int64) int64 {
@@ -115,6 +119,24 @@ func twFeed(c twCfg, evs []ref.Event) func(e *Env) {
 		for _, ev := range evs {
 			if c.Float {
 				e.Emit(Row{"id": ev.ID, "k": ev.Key, "ts": float64(twRowTS(c, ev.TS)), "v": ev.V})
+				continue
+			}
+			if c.TSType != "" {
+				var ts any
+				ms := twRowTS(c, ev.TS)
+				switch c.TSType {
+				case "int":
+					ts = int(ms)
+				case "uint64":
+					ts = uint64(ms)
+				case "time":
+					ts = time.UnixMilli(ms).UTC()
+				case "time-local":
+					ts = time.UnixMilli(ms).In(time.FixedZone("east", 5*3600+1800))
+				case "string":
+					ts = fmt.Sprint(ms)
+				}
+				e.Emit(Row{"id": ev.ID, "k": ev.Key, "ts": ts, "v": ev.V})
 				continue
 			}
 			e.Emit(Row{"id": ev.ID, "k": ev.Key, "ts": twRowTS(c, ev.TS), "v": ev.V})
@@ -302,6 +324,10 @@ func twConfigs(kind, tier string) []twCfg {
 				out = append(out, twCfg{Kind: kind, SizeMs: 100, OOOMs: ooo, Keys: 1, MaxL: maxL, Eager: true, Base: base, Div: 20, Float: true})
 			}
 		}
+		// the timestamp column as every accepted Go type
+		for _, tt := range []string{"int", "uint64", "time", "time-local", "string"} {
+			out = append(out, twCfg{Kind: kind, SizeMs: 100, OOOMs: 100, Keys: 1, MaxL: maxL - 1, Eager: true, Base: 1700000000300, Div: 20, TSType: tt})
+		}
 		return out
 	}
 	for _, ss := range [][2]int64{{4000, 2000}, {3000, 2000}, {2000, 2000}, {2000, 3000}, {6000, 2000}} {
@@ -324,6 +350,9 @@ func twConfigs(kind, tier string) []twCfg {
 	out = append(out, twCfg{Kind: kind, SizeMs: 4000, Slide: 2000, OOOMs: 0, Keys: 1, MaxL: maxL, Eager: false, Block: true})
 	for _, base := range []int64{1700000000300, 1700000000000} {
 		out = append(out, twCfg{Kind: kind, SizeMs: 200, Slide: 100, OOOMs: 100, Keys: 1, MaxL: maxL, Eager: true, Base: base, Div: 20, Float: true})
+	}
+	for _, tt := range []string{"time", "time-local", "string"} {
+		out = append(out, twCfg{Kind: kind, SizeMs: 200, Slide: 100, OOOMs: 100, Keys: 1, MaxL: maxL - 1, Eager: true, Base: 1700000000300, Div: 20, TSType: tt})
 	}
 	return out
 }
